@@ -80,6 +80,14 @@ def bindLoopVars (env : EnvId) (ids : List String) (v : RVal) (pos : Pos) : Eval
       let vals ← destructure v ids.length pos
       modifyS (fun s => (ids.zip vals).foldl (fun s p => s.put env p.1 p.2) s)
 
+/-- the bindings the loop identifiers have in frame `env` itself before the loop starts (`environment.map`) -/
+def hiddenVars (s : State) (env : EnvId) (ids : List String) : List (String × RVal) :=
+  ids.filterMap (fun x => (dictGet x (s.frame env).vars).map (fun v => (x, v)))
+
+/-- put the hidden bindings back -/
+def restoreVars (env : EnvId) (hidden : List (String × RVal)) (s : State) : State :=
+  hidden.foldl (fun s xv => s.put env xv.1 xv.2) s
+
 def removeVars (env : EnvId) (ids : List String) : EvalM Unit :=
   modifyS (fun s => ids.foldl (fun s x => s.remove env x) s)
 
@@ -406,8 +414,12 @@ def eval : Nat → EnvId → Node → EvalM RVal
     let v ← eval fuel env e
     throwV v "" pos
   | fuel + 1, env, .for ids e body what pos => fun s0 =>
+    -- `NodeFor.evaluate`: a loop variable hides a variable of the same name in the same frame for the duration of the
+    -- loop only; the hidden bindings are put back when the loop ends or is aborted by an error
+    let hidden := hiddenVars s0 env ids
     match evalFor fuel env ids e body what pos s0 with
-    | .err v m p t s' => .err v m p t (ids.foldl (fun s x => s.remove env x) s')
+    | .ok v s' => .ok v (restoreVars env hidden s')
+    | .err v m p t s' => .err v m p t (restoreVars env hidden (ids.foldl (fun s x => s.remove env x) s'))
     | other => other
   | fuel + 1, env, .call fnN names args pos => do
     let fn ← eval fuel env fnN
@@ -635,8 +647,8 @@ def callFn : Nat → RVal → List (String × RVal) → EnvId → Pos → EvalM 
       let r ← eval fuel lenv body
       match r with
       | .ret v _ => pure v
-      | .brk _ => throwE "break outside of a loop" {}
-      | .cont _ => throwE "continue outside of a loop" {}
+      | .brk p => throwE "Cannot use break without surrounding loop" p
+      | .cont p => throwE "Cannot use continue without surrounding loop" p
       | v => pure v
     | _ => unsupported "dangling closure"
   | fuel + 1, .native name _, bound, env, pos => do
